@@ -17,3 +17,14 @@ for d in sorted(glob.glob('/verif/seeded/*')):
                                          str(needs).replace('|', '/').replace('\n', ' ')[:140], res))
 print('| seed | what it breaks | needs to manifest | ./check result |\n|---|---|---|---|')
 print('\n'.join(rows))
+
+if __name__ == '__main__':
+    import sys
+    if '--write' in sys.argv:
+        import io, contextlib
+        p = '/verif/DESIGN.md'
+        s = open(p).read()
+        a = s.index('<!-- SEED-TABLE-BEGIN -->') + len('<!-- SEED-TABLE-BEGIN -->')
+        b = s.index('<!-- SEED-TABLE-END -->')
+        table = '| seed | what it breaks | needs to manifest | ./check result |\n|---|---|---|---|\n' + '\n'.join(rows)
+        open(p, 'w').write(s[:a] + '\n' + table + '\n' + s[b:])
